@@ -6,6 +6,7 @@ AttrChoicesSmall == {
     NoAttrs,
     << [a |-> "const", n |-> "title", v |-> "k1"] >>,
     << [a |-> "expr", n |-> "data-x", e |-> "E1"] >>,
+    << [a |-> "cssclass"] >>,
     << [a |-> "cond", c |-> "C1", then |-> << [a |-> "const", n |-> "title", v |-> "k1"] >>, else |-> << >>] >> }
 AttrChoicesFull == {
     NoAttrs,
@@ -16,6 +17,8 @@ AttrChoicesFull == {
     << [a |-> "spread", m |-> "M1"] >>,
     << [a |-> "const", n |-> "id", v |-> "k1"], [a |-> "spread", m |-> "M2"] >>,
     << [a |-> "class2"] >>,
+    << [a |-> "cssclass"] >>,
+    << [a |-> "scriptcall"], [a |-> "const", n |-> "title", v |-> "k1"] >>,
     << [a |-> "const", n |-> "href", v |-> "k5"] >>,
     << [a |-> "const", n |-> "placeholder", v |-> "k6"], [a |-> "boolc", n |-> "hidden"] >>,
     << [a |-> "cond", c |-> "C2", then |-> << [a |-> "boolc", n |-> "hidden"] >>, else |-> << [a |-> "class2"] >>] >>,
